@@ -175,6 +175,20 @@ func vpH_C03_docnums() {
 		batches = append(batches, b)
 		segs = append(segs, vpBuild(b, 1025))
 	}
+	// the first input may itself be the output of an earlier merge that deleted
+	// one of its documents (fields may then exist without any term)
+	if len(batches[0]) == 2 && vpChoice("first-input-premerged", 2) == 1 {
+		dr := roaring.New()
+		dr.Add(uint32(vpChoice("premerge-drop", 2)))
+		keep := 1
+		if dr.Contains(1) {
+			keep = 0
+		}
+		mb, _ := vpMergeBytes([]*Segment{segs[0].(*Segment)}, []*roaring.Bitmap{dr}, 1025)
+		segs[0] = vpLoad(mb)
+		batches[0] = []*vpDoc{batches[0][keep]}
+		vpReach("C03 premerged input")
+	}
 	drops := make([]*roaring.Bitmap, k)
 	dropped := make([][]bool, k)
 	for i := range segs {
@@ -235,6 +249,20 @@ func vpH_C03_docnums() {
 				})
 				vpMust(err, "VisitStoredFields")
 				vpAssert(bytes.Equal(got, id), "old document found at its new number")
+				// ... and so are its postings: every (field, term) of the old document lists the new number
+				for _, f := range d.fields {
+					dict, err := m.Dictionary(f.name)
+					vpMust(err, "Dictionary")
+					for _, t := range f.terms {
+						pl, err := dict.PostingsList(t.term, nil, nil)
+						vpMust(err, "PostingsList")
+						it, err := pl.Iterator(false, false, false, nil)
+						vpMust(err, "Iterator")
+						p, err := it.Advance(dn[i][j])
+						vpMust(err, "Advance")
+						vpAssert(p != nil && p.Number() == dn[i][j], "old document's terms are posted at its new number")
+					}
+				}
 			}
 		}
 	}
